@@ -41,15 +41,23 @@ class StringSimplifyConstant:
     def filter(self, node):
         return is_string_const(node) and node != '""'
 
+    def __literal(self, content):
+        """Return the string literal for ``content``, quotes are escaped."""
+        escaped = content.replace('"', '""')
+        return Node(f'"{escaped}"')
+
     def mutations(self, node):
         yield Simplification({node.id: Node('""')}, [])
-        content = node[1:-1]
+        # shorten the unescaped content: '""' within a literal is one '"' and
+        # must not be cut in half
+        content = node[1:-1].replace('""', '"')
         for sec in nodes.binary_search(len(content)):
             start = self.__fix_escape_sequences(content, sec[0])
             yield Simplification(
-                {node.id: Node(f'"{content[:start]}{content[sec[1]:]}"')}, [])
-        yield Simplification({node.id: Node(f'"{content[1:]}"')}, [])
-        yield Simplification({node.id: Node(f'"{content[:-1]}"')}, [])
+                {node.id: self.__literal(content[:start] + content[sec[1]:])},
+                [])
+        yield Simplification({node.id: self.__literal(content[1:])}, [])
+        yield Simplification({node.id: self.__literal(content[:-1])}, [])
 
     def global_mutations(self, node, input_):
         for simp in self.mutations(node):
